@@ -290,11 +290,62 @@ let run_exec (fuel : int) (p : sexp) : string =
        | Sem.UB -> "UB" | Sem.Stuck -> "STUCK" | Sem.OutOfFuel -> "FUEL")
   | _ -> failwith "prog"
 
+(* ---- C12: import expansion ----------------------------------------------------- *)
+let expand_flags (f : string) : Expand.flags =
+  { Expand.f_public = f.[0] = 'p'; Expand.f_external = f.[1] = 'e'; Expand.f_main = f.[2] = 'm';
+    Expand.f_forward = f.[3] = 'f'; Expand.f_opaque = f.[4] = 'o' }
+let show_flags (f : Expand.flags) : string =
+  String.concat "" [ (if f.Expand.f_public then "p" else "-"); (if f.Expand.f_external then "e" else "-");
+    (if f.Expand.f_main then "m" else "-"); (if f.Expand.f_forward then "f" else "-"); (if f.Expand.f_opaque then "o" else "-") ]
+let payload_names : (int, string) Hashtbl.t = Hashtbl.create 64
+
+let expand_decl (modkey : string) (s : sexp) : Expand.decl =
+  let mk kind name fl body =
+    let id = intern (modkey ^ "/" ^ name) in
+    Hashtbl.replace payload_names (int_of_n id) name;
+    { Expand.d_kind = kind; Expand.d_payload = id; Expand.d_body = (if body = "b" then Some id else None);
+      Expand.d_flags = expand_flags fl } in
+  match s with
+  | L [A "const"; A n; A f; A b] -> mk Expand.KConstant ("const:" ^ n) f b
+  | L [A "fn"; A n; A f; A b] -> mk Expand.KFunction ("fn:" ^ n) f b
+  | L [A "fnhead"; A n; A f; A b] -> mk Expand.KFunctionHead ("fn:" ^ n) f b
+  | L [A "struct"; A n; A f; A b] -> mk Expand.KStructure ("struct:" ^ n) f b
+  | L [A "import"; A file] -> mk (Expand.KImport (intern ("path:" ^ file))) ("import:" ^ file) "-----" "n"
+  | L [A "poison"; A c] -> mk (Expand.KPoison (n_of_string c)) ("poison:" ^ c) "-----" "n"
+  | _ -> failwith "expand decl"
+
+let show_expand_decl (d : Expand.decl) : string =
+  let name = try Hashtbl.find payload_names (int_of_n d.Expand.d_payload) with Not_found -> "?" in
+  let base = match String.index_opt name ':' with Some i -> String.sub name (i + 1) (String.length name - i - 1) | None -> name in
+  let body = match d.Expand.d_body with Some _ -> "b" | None -> "n" in
+  match d.Expand.d_kind with
+  | Expand.KConstant -> Printf.sprintf "(const %s %s %s)" base (show_flags d.Expand.d_flags) body
+  | Expand.KFunction -> Printf.sprintf "(fn %s %s %s)" base (show_flags d.Expand.d_flags) body
+  | Expand.KFunctionHead -> Printf.sprintf "(fnhead %s %s %s)" base (show_flags d.Expand.d_flags) body
+  | Expand.KStructure -> Printf.sprintf "(struct %s %s %s)" base (show_flags d.Expand.d_flags) body
+  | Expand.KImport _ -> Printf.sprintf "(import %s)" base
+  | Expand.KPoison c -> Printf.sprintf "(poison %d)" (int_of_n c)
+
+let run_expand (x : sexp) : string =
+  match x with
+  | L mods ->
+      let keys = List.map (function L (A "M" :: A path :: _) -> path | _ -> failwith "module") mods in
+      let pmods = List.map (function L (A "M" :: A path :: ds) -> (intern ("path:" ^ path), List.map (expand_decl path) ds) | _ -> failwith "module") mods in
+      (* get_key_offset: exact match of the filename among the module paths (flat names only) *)
+      let resolve (_includer : coq_N) (file : coq_N) : Datatypes.nat option =
+        let rec find i = function [] -> None | k :: r -> if intern ("path:" ^ k) = file then Some (nat_of_int i) else find (i + 1) r in
+        find 0 keys in
+      let hint (_ : coq_N) = false in
+      let res = Expand.expand_sorted resolve hint pmods in
+      "(" ^ String.concat " " (List.map2 (fun k (_, ds) -> "(M " ^ k ^ " " ^ String.concat " " (List.map show_expand_decl ds) ^ ")") keys res) ^ ")"
+  | _ -> failwith "expand"
+
 let dispatch (stream : string) (x : sexp) : string =
   match stream with
   | "labels" -> run_labels x
   | "vars" -> run_vars x
   | "exec" -> run_exec 20000 x
+  | "expand" -> run_expand x
   | "tables" -> run_tables (match x with A n -> int_of_string n | _ -> 64)
   | "syntax" -> run_syntax true x
   | "syntax-pinned" -> run_syntax false x
